@@ -44,6 +44,15 @@ Definition bound_okb (R : Z -> Z -> bool) (v : val) (b : option num) : bool :=
 Definition cls_okb (v : val) (c : cls) : bool :=
   subclassb (class_of v) c || (cls_eqb c CFloat && subclassb (class_of v) CInt).
 
+(* positional comparison of two lists of equal length *)
+Definition forall2b {A B} (g : A -> B -> bool) : list A -> list B -> bool :=
+  fix go (ts : list A) (l : list B) : bool :=
+    match ts, l with
+    | [], [] => true
+    | t :: ts', x :: l' => g t x && go ts' l'
+    | _, _ => false
+    end.
+
 Section Oracle.
   Variable psem : Z -> val -> res bool.
 
@@ -63,13 +72,7 @@ Section Oracle.
         end
     | TTuple _ ts =>
         match v with
-        | VTuple l =>
-            (fix go (ts : list ty) (l : list val) : bool :=
-               match ts, l with
-               | [], [] => true
-               | t' :: ts', x :: l' => conformsb t' x && go ts' l'
-               | _, _ => false
-               end) ts l
+        | VTuple l => forall2b (fun t' x => conformsb t' x) ts l
         | _ => false
         end
     | TTupleVar _ t' => match v with VTuple l => forallb (conformsb t') l | _ => false end
